@@ -106,7 +106,14 @@ static void pred_c01(const Case &c) {
     ld tt = 0; for (int i = 0; i < n; i++) tt += T(i, k) * T(i, k);
     ld ref = ss > 0 ? 100 * tt / ss : 0;
     VF_CHECK(fabsl(ve[k] - ref) <= ref * (10 * t3 + 1e-9L) + 1e-12L, "explained variance %d = %.12Lg but t't/ss*100 = %.12Lg (n=%d p=%d scaling=%d)", k, ve[k], ref, n, p, scaling);
-    if (k > 0) VF_CHECK(ve[k] <= ve[k - 1] + 5 * t3 * ve[0] + 1e-9L, "explained variance increases: %.12Lg then %.12Lg", ve[k - 1], ve[k]);
+    if (k > 0 && !(ve[k] <= ve[k - 1] + 5 * t3 * ve[0] + 1e-9L)) {
+      // out of order: is it the NIPALS plateau (both components are principal axes, taken in the other order)? -> known finding
+      V lamx; M Vx; jacobi_eig(mul(transpose(Pr.X), Pr.X), lamx, Vx);
+      int j0 = matched_axis(Vx, P, k - 1), j1 = matched_axis(Vx, P, k);
+      std::string msg = fmt("explained variance increases: %.12Lg then %.12Lg", ve[k - 1], ve[k]);
+      if (j0 >= 0 && j1 >= 0 && j1 < j0) fail_known("pca-nipals-plateau-order", msg + fmt(" (components %d and %d are the principal axes %d and %d: taken in the other order)", k - 1, k, j0, j1));
+      fail(msg);
+    }
     sum += ve[k];
   }
   VF_CHECK(sum <= 100 * (1 + 10 * t3 + 1e-9L), "explained variances sum to %.12Lg > 100", sum);
